@@ -241,6 +241,10 @@ pub struct ClientCase {
     /// answer with a body-less Trailers-Only response (grpc-status 0 in the headers); forces `resp` empty
     #[serde(default)]
     pub trailers_only: bool,
+    /// the client first makes a call *without* any compression configuration; the configuration under test is
+    /// applied afterwards (to a clone when the flag's second bit is set) and only the second call is judged
+    #[serde(default)]
+    pub warm_up: u8,
 }
 
 #[derive(Clone, Debug, Serialize, Deserialize)]
@@ -364,10 +368,11 @@ pub fn strategy() -> BoxedStrategy<Case> {
         enc_hdr(),
         proptest::collection::vec(frame(), 0..=3),
         proptest::bool::weighted(0.15),
+        prop_oneof![3 => Just(0u8), 1 => Just(1u8), 1 => Just(3u8)],
     )
-        .prop_map(|(send, accept, shape, req, resp_enc, resp, trailers_only)| {
+        .prop_map(|(send, accept, shape, req, resp_enc, resp, trailers_only, warm_up)| {
             let resp = if trailers_only { vec![] } else { resp };
-            Case::Client(ClientCase { send, accept, shape, req, resp_enc, resp, trailers_only })
+            Case::Client(ClientCase { send, accept, shape, req, resp_enc, resp, trailers_only, warm_up })
         });
     prop_oneof![3 => server, 2 => client].boxed()
 }
@@ -875,6 +880,16 @@ fn run_client(c: &ClientCase, o: &mut Outcome) -> Result<(), Failure> {
     });
     let log = ch.log.clone();
     let mut client = vt::raw_client::RawClient::new(ch);
+    o.label_if(c.warm_up != 0, "cli_configured_after_first_call");
+    if c.warm_up != 0 {
+        // a first call on the not-yet-configured client (its outcome does not matter)
+        let mut c0 = client.clone();
+        let _ = block_on_budget(4096, async move { c0.unary(tonic::Request::new(b"warm-up".to_vec())).await });
+        log.lock().unwrap().clear();
+        if c.warm_up & 2 != 0 {
+            client = client.clone();
+        }
+    }
     if let Some(e) = c.send {
         client = client.send_compressed(e.tonic());
     }
@@ -1058,9 +1073,10 @@ pub fn fixed_cases() -> Vec<Case> {
                         resp_enc: h,
                         resp: vec![Frame { flag, pay: Pay::AsHeader, msg: hello.clone() }],
                         trailers_only: false,
+                        warm_up: if flag == 1 { 1 } else { 0 },
                     }));
                     if flag == 1 {
-                        v.push(Case::Client(ClientCase { send, accept: accept.clone(), shape: Shape::ServerStream, req: vec![hello.clone()], resp_enc: h, resp: vec![], trailers_only: true }));
+                        v.push(Case::Client(ClientCase { send, accept: accept.clone(), shape: Shape::ServerStream, req: vec![hello.clone()], resp_enc: h, resp: vec![], trailers_only: true, warm_up: 0 }));
                     }
                 }
             }
@@ -1163,7 +1179,7 @@ pub fn from_bytes(data: &[u8]) -> Option<Case> {
         for _ in 0..n {
             resp.push(a_frame(&mut u)?);
         }
-        Some(Case::Client(ClientCase { send, accept, shape, req, resp_enc, resp, trailers_only: false }))
+        Some(Case::Client(ClientCase { send, accept, shape, req, resp_enc, resp, trailers_only: false, warm_up: 0 }))
     }
 }
 
